@@ -344,12 +344,12 @@ type c07group struct {
 }
 
 type c07sig struct {
-	params, results []c07var
+	params, results  []c07var
 	pgroups, rgroups []c07group
-	route           string // how the gotypes.Signature was built
-	real            *gotypes.Signature
-	variadic        bool           // the last parameter is `...T` (its type here is the slice []T)
-	bctx            *build.Context // route "build": selection through build.Param/ParamIndex/Return/ReturnIndex
+	route            string // how the gotypes.Signature was built
+	real             *gotypes.Signature
+	variadic         bool           // the last parameter is `...T` (its type here is the slice []T)
+	bctx             *build.Context // route "build": selection through build.Param/ParamIndex/Return/ReturnIndex
 }
 
 func c07grouping(r *rng, vs []c07var) []c07group {
@@ -504,6 +504,22 @@ func (s *c07sig) build(r *rng) error {
 	if len(s.params) == 0 && len(s.results) == 0 && r.chance(1, 2) {
 		route = 4
 	}
+	if err := s.buildRoute(route, nil); err != nil {
+		return err
+	}
+	if r.chance(1, 4) {
+		c := build.NewContext()
+		c.Function("Fn")
+		c.Signature(s.real)
+		s.bctx = c
+		s.route += "+build"
+	}
+	return nil
+}
+
+// buildRoute constructs the real signature by the given route.  With pkg (route 2) the expression is evaluated in
+// that already type-checked package instead of a fresh one.
+func (s *c07sig) buildRoute(route int, pkg *types.Package) error {
 	switch route {
 	case 0: // go/types objects built directly
 		s.real = s.buildDirect()
@@ -515,9 +531,11 @@ func (s *c07sig) build(r *rng) error {
 		}
 		s.real, s.route = sig, "parse"
 	case 2: // expression in a type-checked package declaring the named types
-		pkg, err := s.checkDecls("")
-		if err != nil {
-			return err
+		if pkg == nil {
+			var err error
+			if pkg, err = s.checkDecls(""); err != nil {
+				return err
+			}
 		}
 		sig, err := gotypes.ParseSignatureInPackage(pkg, "func"+s.src())
 		if err != nil {
@@ -537,12 +555,263 @@ func (s *c07sig) build(r *rng) error {
 	case 4:
 		s.real, s.route = gotypes.NewSignatureVoid(), "void"
 	}
-	if r.chance(1, 4) {
+	return nil
+}
+
+// ---------------------------------------------------------------- families: one process, one package path, the same
+// expression text, different definitions of the type names it mentions
+
+func c07clone(t *c07ty, memo map[*c07ty]*c07ty) *c07ty {
+	if c, ok := memo[t]; ok {
+		return c
+	}
+	c := &c07ty{kind: t.kind, basic: t.basic, n: t.n, name: t.name, other: t.other}
+	memo[t] = c
+	if t.elem != nil {
+		c.elem = c07clone(t.elem, memo)
+	}
+	for _, f := range t.fields {
+		c.fields = append(c.fields, c07field{f.name, c07clone(f.t, memo), f.embedded})
+	}
+	return c
+}
+
+// cloneSig copies a signature with fresh type objects (same names, same sharing, same parameter list entries).
+func (s *c07sig) cloneSig() (*c07sig, map[*c07ty]*c07ty) {
+	memo := map[*c07ty]*c07ty{}
+	c := &c07sig{variadic: s.variadic}
+	for _, v := range s.params {
+		c.params = append(c.params, c07var{v.name, c07clone(v.t, memo)})
+	}
+	for _, v := range s.results {
+		c.results = append(c.results, c07var{v.name, c07clone(v.t, memo)})
+	}
+	for _, g := range s.pgroups {
+		c.pgroups = append(c.pgroups, c07group{g.names, memo[g.t]})
+	}
+	for _, g := range s.rgroups {
+		c.rgroups = append(c.rgroups, c07group{g.names, memo[g.t]})
+	}
+	return c, memo
+}
+
+// redefine changes the definition of a defined / alias type (the copy c) so that its layout differs; the name stays.
+func (g *c07gen) redefine(c *c07ty) bool {
+	u := c.elem
+	small := []string{"int8", "uint16", "int32", "int64", "float32", "complex128", "string", "bool"}
+	switch u.kind {
+	case c07Named, c07Alias:
+		return false // its own definition is redefined, or not
+	case c07Struct:
+		c.elem = &c07ty{kind: c07Struct, fields: append([]c07field{}, u.fields...)}
+		u = c.elem
+		switch k := g.r.intn(3); {
+		case k == 0 && len(u.fields) >= 2:
+			// the same fields in another order (offsets by field name change, often the size)
+			for i, j := 0, len(u.fields)-1; i < j; i, j = i+1, j-1 {
+				u.fields[i], u.fields[j] = u.fields[j], u.fields[i]
+			}
+			if g.r.chance(1, 2) {
+				u.fields = append([]c07field{{"Pad", &c07ty{kind: c07Basic, basic: "int8"}, false}}, u.fields...)
+			}
+		case k == 1 && len(u.fields) >= 1:
+			// one field of another type
+			i := g.r.intn(len(u.fields))
+			if !u.fields[i].embedded {
+				old := u.fields[i].t
+				nt := &c07ty{kind: c07Basic, basic: pick(g.r, small)}
+				if old.kind == c07Basic && old.basic == nt.basic {
+					nt = &c07ty{kind: c07Array, n: 3, elem: nt}
+				}
+				u.fields[i].t = nt
+				break
+			}
+			fallthrough
+		default:
+			pad := pick(g.r, []*c07ty{{kind: c07Basic, basic: "int8"}, {kind: c07Basic, basic: "int64"},
+				{kind: c07Array, n: 3, elem: &c07ty{kind: c07Basic, basic: "uint64"}}, {kind: c07Basic, basic: "string"}})
+			u.fields = append([]c07field{{"Pad", pad, false}}, u.fields...)
+		}
+	case c07Basic:
+		nb := pick(g.r, small)
+		for nb == u.basic {
+			nb = pick(g.r, small)
+		}
+		c.elem = &c07ty{kind: c07Basic, basic: nb}
+	case c07Array:
+		c.elem = &c07ty{kind: c07Array, n: u.n + 1 + g.r.intn(2), elem: u.elem}
+	default:
+		c.elem = &c07ty{kind: c07Struct, fields: []c07field{{"Pad", &c07ty{kind: c07Basic, basic: "int8"}, false}, {"v", u, false}}}
+	}
+	return true
+}
+
+// family runs, in this one process, signatures that share the package path and the expression text with s but not
+// the definitions (and s's package again, and another expression in s's package), each built by a route and judged
+// like every other signature: against the model on ITS OWN definitions.
+func (g *c07gen) family(e *c07emitter, s *c07sig) error {
+	st := e.stats
+	if len(s.params)+len(s.results) == 0 {
+		return nil
+	}
+	a, _ := s.cloneSig()
+	if len(a.decls()) == 0 {
+		// no type name in the expression: give the first variable's type one
+		g.nnamed++
+		vs := a.params
+		if len(vs) == 0 {
+			vs = a.results
+		}
+		old := vs[0].t
+		nt := &c07ty{kind: c07Named, name: "Rec" + itoa(g.nnamed), elem: old}
+		for i := range a.params {
+			if a.params[i].t == old {
+				a.params[i].t = nt
+			}
+		}
+		for i := range a.results {
+			if a.results[i].t == old {
+				a.results[i].t = nt
+			}
+		}
+		for i := range a.pgroups {
+			if a.pgroups[i].t == old {
+				a.pgroups[i].t = nt
+			}
+		}
+		for i := range a.rgroups {
+			if a.rgroups[i].t == old {
+				a.rgroups[i].t = nt
+			}
+		}
+		if a.variadic && len(a.params) > 0 && a.params[len(a.params)-1].t == nt {
+			return nil // the variadic parameter must stay a slice in the text
+		}
+	}
+	b, memo := a.cloneSig()
+	changed := 0
+	var named []*c07ty
+	for _, d := range a.decls() {
+		named = append(named, memo[d])
+	}
+	for tries := 0; changed == 0 && tries < 4; tries++ {
+		for _, c := range named {
+			if g.r.chance(1, 2) && g.redefine(c) {
+				changed++
+			}
+		}
+	}
+	expr := "func" + a.src()
+	if changed == 0 || "func"+b.src() != expr {
+		st["family_skipped"]++
+		return nil
+	}
+	exprUnsafe := strings.Contains(expr, "unsafe.")
+	a2, _ := a.cloneSig()
+	// another expression for a's package: a's variables without the last one
+	sub := &c07sig{}
+	if len(a.params) > 1 && !a.variadic {
+		sub.params, sub.results = a.params[:len(a.params)-1], a.results
+	} else {
+		sub.params = a.params
+	}
+	sub.pgroups, sub.rgroups = c07grouping(nil, sub.params), c07grouping(nil, sub.results)
+	mode := "mixed"
+	if !exprUnsafe && g.r.chance(3, 5) {
+		mode = "pip" // every member through ParseSignatureInPackage
+	}
+	route := func() int {
+		if mode == "pip" {
+			return 2
+		}
+		if exprUnsafe {
+			return pick(g.r, []int{0, 3})
+		}
+		return pick(g.r, []int{0, 2, 3, 3})
+	}
+	var pkgA *types.Package
+	if !exprUnsafe {
+		var err error
+		if pkgA, err = a.checkDecls(""); err != nil {
+			return err
+		}
+	}
+	ra, rb := route(), route()
+	if err := a.buildRoute(ra, pkgA); err != nil {
+		return err
+	}
+	// the same text without a package: the names are not declared there
+	nilBad := 0
+	if sig, err := gotypes.ParseSignature(expr); err == nil && sig != nil {
+		nilBad = 1
+	}
+	e.o.emit("accept-count "+itoa(nilBad)+" parse-without-package-of-a-text-naming-package-types "+hexs(expr), "ok")
+	cbad := 0
+	func() {
+		defer func() {
+			if recover() != nil {
+				cbad = 1
+			}
+		}()
 		c := build.NewContext()
 		c.Function("Fn")
-		c.Signature(s.real)
-		s.bctx = c
-		s.route += "+build"
+		if g.r.chance(1, 2) {
+			c.SignatureExpr(expr)
+		} else {
+			old := build.VerifSwapContext(c)
+			build.SignatureExpr(expr)
+			build.VerifSwapContext(old)
+		}
+		f, _ := c.Result()
+		if c.VerifErrCount() == 0 || len(f.Functions()) != 1 || f.Functions()[0].Signature.Bytes() != 0 {
+			cbad = 1
+		}
+	}()
+	e.o.emit("accept-count "+itoa(cbad)+" SignatureExpr-without-package-of-a-text-naming-package-types "+hexs(expr), "ok")
+	st["family_nil_package_checks"] += 2
+	if err := b.buildRoute(rb, nil); err != nil {
+		return err
+	}
+	// a's package again (the same object when it was parsed in one), and another expression in it
+	ra2 := route()
+	if err := a2.buildRoute(ra2, pkgA); err != nil {
+		return err
+	}
+	rs := 2
+	if exprUnsafe {
+		rs = 0
+	}
+	if err := sub.buildRoute(rs, pkgA); err != nil {
+		return err
+	}
+	st["families"]++
+	st["family_mode_"+mode]++
+	if a.toks() != b.toks() {
+		st["family_same_text_different_definition"]++
+		if ra == 2 && rb == 2 {
+			st["family_same_text_different_definition_both_parsed_in_package"]++
+		}
+		if a.real.Bytes() != b.real.Bytes() {
+			st["family_same_text_different_argsize"]++
+		}
+	}
+	if ra == 2 && ra2 == 2 {
+		st["family_same_package_object_same_text_again"]++
+	}
+	if rs == 2 {
+		st["family_same_package_object_other_expression"]++
+	}
+	for _, m := range []*c07sig{a, b, a2, sub} {
+		m.route = "family-" + m.route
+		if g.r.chance(1, 4) {
+			// installed in a Context, components selected through the package-level build.Param…
+			c := build.NewContext()
+			c.Function("Fn")
+			c.Signature(m.real)
+			m.bctx = c
+			m.route += "+build"
+		}
+		e.emitSig(g, m, false)
 	}
 	return nil
 }
@@ -948,6 +1217,51 @@ func (g *c07gen) badSteps(t *c07ty) []c07step {
 	return out
 }
 
+// promotedSteps proposes Field(name) for the names Go would PROMOTE from embedded fields of a struct (an embedded
+// struct, or a pointer to one, at any depth) that are not fields of the struct itself: no component of the value has
+// such a name for the toolchain (x_Inner_a, not x_a), and behind an embedded pointer there is no component at all.
+func (g *c07gen) promotedSteps(t *c07ty) []c07step {
+	if t == nil {
+		return nil
+	}
+	u := t.under()
+	if u.kind != c07Struct {
+		return nil
+	}
+	direct := map[string]bool{}
+	for _, f := range u.fields {
+		direct[f.name] = true
+	}
+	seen := map[string]bool{}
+	var out []c07step
+	var walk func(s *c07ty, depth int, ptr int)
+	walk = func(s *c07ty, depth int, ptr int) {
+		for _, f := range s.fields {
+			if !f.embedded || depth > 3 {
+				continue
+			}
+			in := f.t.under()
+			ptr := ptr
+			if in.kind == c07Ptr {
+				in = in.elem.under()
+				ptr = 1
+			}
+			if in.kind != c07Struct {
+				continue
+			}
+			for _, ff := range in.fields {
+				if !direct[ff.name] && !seen[ff.name] && ff.name != "_" {
+					seen[ff.name] = true
+					out = append(out, c07step{kind: "f", name: ff.name, i: ptr}) // i = 1: behind an embedded pointer
+				}
+			}
+			walk(in, depth+1, ptr)
+		}
+	}
+	walk(u, 0, 0)
+	return out
+}
+
 // ---------------------------------------------------------------- running the implementation
 
 func c07outcome(c gotypes.Component) (res string, text string) {
@@ -1291,6 +1605,14 @@ func (e *c07emitter) emitPaths(g *c07gen, s *c07sig, st string, full bool) {
 					class = "valid_scalar"
 				}
 				e.emitResolve(s, st, sel, p, class)
+				// names Go would promote from embedded fields: always proposed (every one of them)
+				for _, ps := range g.promotedSteps(end) {
+					if ps.i == 1 {
+						e.stats["paths_invalid_promoted_field_behind_embedded_pointer"]++
+					}
+					ps.i = 0
+					e.emitResolve(s, st, sel, append(append([]c07step{}, p...), ps), "invalid_promoted_field")
+				}
 				// invalid continuations of this node
 				bad := g.badSteps(end)
 				nb := 2
@@ -1660,6 +1982,11 @@ func init() {
 				return err
 			}
 			e.emitSig(g, s, k%16 == 0)
+			if k%10 == 3 {
+				if err := g.family(e, s); err != nil {
+					return err
+				}
+			}
 		}
 		e.stats["signatures"] = *f.n + len(c07corpus)
 		e.stats["requests"] = o.count
